@@ -3706,7 +3706,7 @@ def with_programs(ctx):
     for variant in (0, 1, 2):
         for sc in scopes:
             for ar in arrows:
-                if ctx.quick() and ctx.rnd.random() > 0.3 and ar not in ('var h=x=>x+1;', 'var h=()=>{return 1};'):
+                if ctx.quick() and (variant == 1 or ctx.rnd.random() > 0.1) and ar not in ('var h=x=>x+1;', 'var h=()=>{return 1};'):
                     continue
                 oo = 'var o={items:[1,2],%s};' % objprops if variant != 1 else 'var o={items:[1,2],item:"ITEM",inner:"INNER",%s};' % objprops
                 body = ar + sc
@@ -3805,8 +3805,8 @@ def families(ctx, exe):
         return lst if not quick else [x for x in lst if rnd.random() < frac]
 
     fams = []
-    fams.append(dict(name='tests', sources=some(test_variants(ctx), 0.11), nenv=4 if quick else 6, probe=1))
-    fams.append(dict(name='structural', sources=some(structural_programs(ctx), 0.06), nenv=4 if quick else 6, probe=1))
+    fams.append(dict(name='tests', sources=some(test_variants(ctx), 0.08), nenv=4 if quick else 6, probe=1))
+    fams.append(dict(name='structural', sources=some(structural_programs(ctx), 0.04), nenv=4 if quick else 6, probe=1))
     fams.append(dict(name='precedence', sources=precedence_matrix(ctx), nenv=1, probe=0, batched=True))
     fams.append(dict(name='literals', sources=literal_programs(ctx), nenv=1, probe=1, batched=True))
     fams.append(dict(name='asi', sources=some(asi_programs(ctx), 0.09), nenv=3 if quick else 5, probe=1))
